@@ -36,7 +36,7 @@ class Table:
         if key not in self.ids:
             i = "d%d" % len(self.rows)
             self.ids[key] = i
-            self.rows.append((i, ig.abstract_text(doc), ig.render(doc, group).hex()))
+            self.rows.append((i, ig.abstract_text(doc, group), ig.render(doc, group).hex()))
         return self.ids[key]
 
     def write(self, path):
@@ -88,7 +88,7 @@ class Case:
     def to_json(self):
         return {"label": self.label, "kind": self.kind, "script": self.line(),
                 "phases": [{"label": lb, "fresh": fr,
-                            "files": {f: ig.abstract_text(d) for f, d in sorted(fs.items())}} for fs, fr, lb in self.phases]}
+                            "files": {f: ig.abstract_text(d, self.group) for f, d in sorted(fs.items())}} for fs, fr, lb in self.phases]}
 
 
 def base_case(table, files, strict, label, group=False):
@@ -158,29 +158,43 @@ def canon(line):
 
 
 # ----------------------------------------------------------------------------------------------- known findings
-
+# id -> (kinds of property failure the defect can cause, matcher over the ground truth of the graph)
 FINDINGS = {
-    "C07-hidden-imports": lambda t: t.hidden_import,
-    "C07-units-history-not-popped": lambda t: t.sibling_imports,
-    "C07-null-deref-dangling-units-ref": lambda t: t.dangling_ref_used,
-    "C07-cyclic-local-units": lambda t: t.local_units_cycle,
-    "C07-parser-errors-seen-once": lambda t: t.parse_errors,
+    "C07-cyclic-local-units": (
+        {"R_true_not_resolvable", "U_no_return", "F_no_return"}, lambda t: t.local_units_cycle),
+    "C07-unexamined-dependencies": (
+        {"R_true_not_resolvable", "U_true_after_R_true"}, lambda t: t.hidden_import),
+    "C07-units-history-not-popped": (
+        {"U_true_after_R_true"}, lambda t: t.sibling_imports),
+    "C07-null-deref-dangling-units-ref": (
+        {"U_no_return", "F_no_return"}, lambda t: t.dangling_ref_used),
+    "C07-resolved-test-unbounded-on-import-cycle": (
+        {"U_no_return", "F_no_return"}, lambda t: t.file_revisit),
+    "C07-flatten-units-name-capture": (
+        {"F_proper_no_return"}, lambda t: t.name_capture),
+    "C07-flatten-import-cycle-through-child": (
+        {"F_proper_no_return", "F_model_after_R_false"}, lambda t: t.entity_cycle),
+    "C07-parser-errors-seen-once": (
+        {"R_true_not_resolvable", "F_model_after_R_false"}, lambda t: t.parse_errors),
 }
 
 
-def matching_findings(t):
-    return [k for k, m in FINDINGS.items() if m(t)]
+def matching_findings(t, kind=None):
+    return [k for k, (kinds, m) in FINDINGS.items() if (kind is None or kind in kinds) and m(t)]
 
 
 # ----------------------------------------------------------------------------------------------- oracle
 
-def oracle(case, recs):
-    """the property evaluated on the implementation's line.  Returns list of (problem text, truth)."""
+def oracle(case, recs, mrecs):
+    """the property evaluated on the implementation's line.  Returns list of (kind, text, truth).
+    mrecs = the model's records (only used to tell a failure inside flattenModel's pre-checks, which the model
+    covers, from one in the flattening proper, which it does not)."""
     problems = []
     ri = -1
     cur = None
     last_r = None
-    for r in recs:
+    for idx, r in enumerate(recs):
+        mr = mrecs[idx] if idx < len(mrecs) else None
         if r[0] == "R":
             ri += 1
             files, fresh, label = case.phases[ri]
@@ -189,38 +203,40 @@ def oracle(case, recs):
             last_r = r
             v, issues = r[1], issue_list(r[2])
             if v not in ("0", "1"):
-                problems.append(("%s: resolveImports did not return (%s)" % (label, v), t))
+                problems.append(("R_no_return", "%s: resolveImports did not return (%s)" % (label, v), t))
                 continue
             if v == "0" and not issues:
-                problems.append(("%s: resolveImports returned false without any issue" % label, t))
+                problems.append(("R_false_no_issue", "%s: resolveImports returned false without any issue" % label, t))
             if not fresh:
                 continue
             if t.resolvable and not t.file_revisit and v != "1":
-                problems.append(("%s: every import can be satisfied but resolveImports returned false %s" % (label, r[2]), t))
+                problems.append(("R_false_resolvable", "%s: every import can be satisfied but resolveImports returned false %s" % (label, r[2]), t))
             if not t.resolvable and v != "0":
-                problems.append(("%s: resolveImports returned true although %s" % (label, t.reason), t))
+                problems.append(("R_true_not_resolvable", "%s: resolveImports returned true although %s" % (label, t.reason), t))
             if v == "0" and not t.resolvable:
-                bad_roots = {"%s:%s/%s" % (k, ig.mname(ORIGIN), n) for k, n, ok in t.roots if not ok}
+                bad_roots = {"%s:%s/%s" % (k, files[ORIGIN][1], n) for k, n, ok in t.roots if not ok}
                 items = {i.split("@", 1)[1] for i in issues if "@" in i}
                 if not (bad_roots & items):
-                    problems.append(("%s: no issue is attached to a failing import %s (issues %s)" % (label, sorted(bad_roots), r[2]), t))
+                    problems.append(("R_issue_not_attached", "%s: no issue is attached to a failing import %s (issues %s)" % (label, sorted(bad_roots), r[2]), t))
         elif r[0] == "U" and cur is not None:
             t, fresh, label = cur
             if r[1] not in ("0", "1"):
-                problems.append(("%s: hasUnresolvedImports did not return (%s)" % (label, r[1]), t))
+                problems.append(("U_no_return", "%s: hasUnresolvedImports did not return (%s)" % (label, r[1]), t))
             elif last_r is not None and last_r[1] == "1" and r[1] != "0":
-                problems.append(("%s: resolveImports returned true but hasUnresolvedImports() is true" % label, t))
+                problems.append(("U_true_after_R_true", "%s: resolveImports returned true but hasUnresolvedImports() is true" % label, t))
         elif r[0] == "F" and cur is not None:
             t, fresh, label = cur
             v, issues = r[1], issue_list(r[2])
             if v not in ("null", "model"):
-                problems.append(("%s: flattenModel did not return (%s)" % (label, v), t))
+                proper = mr is not None and mr[0] == "F" and mr[1] == "model"
+                problems.append(("F_proper_no_return" if proper else "F_no_return",
+                                 "%s: flattenModel did not return (%s)%s" % (label, v, " after its pre-checks passed" if proper else ""), t))
             elif v == "null" and not issues:
-                problems.append(("%s: flattenModel returned null without an issue" % label, t))
+                problems.append(("F_null_no_issue", "%s: flattenModel returned null without an issue" % label, t))
             elif last_r is not None and last_r[1] == "0" and v != "null":
-                problems.append(("%s: resolveImports returned false but flattenModel returned a model" % label, t))
+                problems.append(("F_model_after_R_false", "%s: resolveImports returned false but flattenModel returned a model" % label, t))
         elif r[0] == "?":
-            problems.append(("unexpected output token %s" % r[1], cur[0] if cur else None))
+            problems.append(("output", "unexpected output token %s" % r[1], cur[0] if cur else None))
     return problems
 
 
@@ -356,11 +372,12 @@ def evaluate(ctx, results, hist, enum_info, table):
         dist["files_in_closure"][nfc] = dist["files_in_closure"].get(nfc, 0) + 1
         if t0.depth >= 1:
             nontrivial.add(case.line())
-        problems = oracle(case, recs)
+        mrecs = parse_line(ml)
+        problems = oracle(case, recs, mrecs)
         # a failure of the property: known finding class or violation
         unexplained = []
-        for text, t in problems:
-            ks = matching_findings(t) if t is not None else []
+        for kind, text, t in problems:
+            ks = matching_findings(t, kind) if t is not None else []
             hit = False
             for k in ks:
                 if ctx.known_finding(k, "%s [%s]" % (text, case.label)):
@@ -368,14 +385,22 @@ def evaluate(ctx, results, hist, enum_info, table):
                     hit = True
             if not hit:
                 unexplained.append(text)
-        mismatch = ccl != cml
-        if mismatch and not unexplained:
-            # inside a known-finding class the implementation may behave as the model or as the property demands
-            ks = set()
-            for fs, fr, lb in case.phases:
-                ks |= set(matching_findings(ig.truth(fs)))
-            if ks and not problems and all(k in ctx.known for k in ks):
-                mismatch = False
+        # correspondence: exact, except that the flattening proper (after the pre-checks) is not modelled
+        mismatch = False
+        if ccl != cml:
+            if len(recs) != len(mrecs):
+                mismatch = True
+            for r, mr in zip(recs, mrecs):
+                if canon(" ".join(map(str, r))) == canon(" ".join(map(str, mr))):
+                    continue
+                if r[0] == "F" and mr[0] == "F" and mr[1] == "model" and r[1] not in ("null", "model"):
+                    continue          # crash / hang inside the flattening proper: judged by the oracle above
+                mismatch = True
+        if (mismatch or unexplained) and os.environ.get("C07_DEBUG"):
+            with open(os.path.join(ctx.workdir, "bad.jsonl"), "a") as dbg:
+                d = case.to_json()
+                d.update({"impl": cl, "model": ml, "problems": unexplained, "mismatch": mismatch})
+                dbg.write(json.dumps(d) + "\n")
         if (mismatch or unexplained) and nbad < 5:
             nbad += 1
             what = []
